@@ -215,6 +215,16 @@ def run(rng: Rng, tier: str, index: int) -> RunResult:
             if got_claims is None:
                 return
         before = copy.deepcopy(got_claims)
+        plain_first = erng.chance(0.15)
+        if plain_first:
+            # elsewhere in the process the same claims go through the plain ClaimsRegistry (no time rules): another registry class
+            # of the library, with its own outcome, which must leave the JWT registry's judgement alone
+            try:
+                from joserfc.rfc7519.registry import ClaimsRegistry
+                ClaimsRegistry(**copy.deepcopy(requests)).validate(copy.deepcopy(got_claims))
+            except Exception:
+                pass
+            res.fired("plain-ClaimsRegistry-used-before")
         age = 0
         if explicit is None and erng.chance(0.3):
             # the registry is built once and used later (a module-level claims request): "now" is the time of validation
@@ -232,7 +242,8 @@ def run(rng: Rng, tier: str, index: int) -> RunResult:
             res.probe("dontcare:" + verdict[1][:40])
             return
         res.violation(ID, verdict[0] + (":long-lived-registry" if age else ""), verdict[1] + (" [registry built %d s before the validation]" % age if age else ""),
-                      {"claims": before, "requests": requests, "leeway": leeway, "explicit_now": explicit, "clock": tv, "registry_age": age})
+                      {"claims": before, "requests": requests, "leeway": leeway, "explicit_now": explicit, "clock": tv, "registry_age": age,
+                       "plain_first": plain_first})
 
     def through_jwt(claims, res):
         """issuer encodes (datetime exp/nbf/iat), validator decodes: the JWT leg"""
@@ -294,6 +305,12 @@ def replay(repro: dict):
     tv = repro["clock"]
     age = repro.get("registry_age", 0)
     t = {"now": tv - age}
+    if repro.get("plain_first"):
+        try:
+            from joserfc.rfc7519.registry import ClaimsRegistry
+            ClaimsRegistry(**copy.deepcopy(repro["requests"])).validate(copy.deepcopy(claims))
+        except Exception:
+            pass
     with seams.clock(seams.Clock(lambda: t["now"])):
         outcome, exc = validate_once(claims, repro["requests"], repro["leeway"], repro["explicit_now"], (lambda: t.update(now=tv)) if age else None)
     v = judge(repro["claims"], repro["requests"], repro["leeway"], repro["explicit_now"], tv, outcome, claims)
